@@ -288,3 +288,6 @@ def run(ctx):
     from .C03 import r3_4
     r10_2(ctx)
     r3_4(ctx)
+    # an absent resource must not be newly paired with a task: allocation sites require state FREE (C04)
+    from .C04 import r4_1
+    r4_1(ctx)
